@@ -317,7 +317,7 @@ impl W {
             let text = if filtermap {
                 // a filtermap's Rust type is the Verdict of its accept / reject payloads, () for an unused side
                 let TD::Verdict(a, r) = &ret else { unreachable!() };
-                let style = c.below(6);
+                let style = c.below(9);
                 let mut ps = plist.clone();
                 let (body, rd) = match style {
                     0 => {
@@ -338,6 +338,12 @@ impl W {
                         // neither side is ever used: the body only calls itself
                         (format!("{name}({})", args.join(", ")), TD::Verdict(Box::new(TD::Leaf("()")), Box::new(TD::Leaf("()"))))
                     }
+                    6 => ("accept 1.5".to_string(), TD::Verdict(Box::new(TD::Leaf("f64")), Box::new(TD::Leaf("()")))),
+                    7 => ("if true { accept 1 } else { reject }".to_string(), TD::Verdict(Box::new(TD::Leaf("i32")), Box::new(TD::Leaf("()")))),
+                    8 => (
+                        "if true { accept [1.5, 2.5] } else { reject Option.Some(2) }".to_string(),
+                        TD::Verdict(Box::new(TD::List(Box::new(TD::Leaf("f64")))), Box::new(TD::Opt(Box::new(TD::Leaf("i32"))))),
+                    ),
                     _ => {
                         // one side used, the other only reached through the recursive call
                         ps.push(format!("xa: {}", a.roto()));
@@ -370,6 +376,25 @@ impl W {
                 format!("fn {name}({}) -> {} {{\n    {name}({})\n}}\n", plist.join(", "), ret.roto(), args.join(", "))
             };
             out.push(ScriptFn { name, filtermap, params, ret, text });
+        }
+        // a script-declared type named like a built-in type constructor: no Rust type describes it
+        let all: String = out.iter().map(|f| f.text.clone()).collect();
+        if c.chance(50) {
+            let (decl, user, text_ty) = match c.below(3) {
+                0 => ("record List[T] { v: T }", "@script-declared List", "List[i32]"),
+                1 => ("record Result[A, B] { a: A, b: B }", "@script-declared Result", "Result[i32, i32]"),
+                _ => ("enum Verdict[A, B] { Accept(A), Reject(B) }", "@script-declared Verdict", "Verdict[i32, i32]"),
+            };
+            let ctor = decl.split(|ch| ch == ' ' || ch == '[').nth(1).unwrap_or("List");
+            if !all.contains(&format!("{ctor}[")) && !all.contains("filtermap") {
+                out.push(ScriptFn {
+                    name: "shadowed".into(),
+                    filtermap: false,
+                    params: vec![TD::Leaf(user)],
+                    ret: TD::Leaf("i32"),
+                    text: format!("{decl}\nfn shadowed(x: {text_ty}) -> i32 {{\n    0\n}}\n"),
+                });
+            }
         }
         out
     }
@@ -475,7 +500,7 @@ impl Prop for C04P {
         "C04"
     }
     fn rule(&self) -> String {
-        "scripts with 3-7 functions/filtermaps whose signatures are catalogue entries, one-step near misses of them (width/signedness/registered type changed, Option<->List, Result<->Verdict, arguments swapped, parameter added/removed/permuted) or random types (20 leaves, nesting <= 3, arity 0..7); every function is requested under every Rust function type of a macro-built catalogue (~260 types); oracle: get_function succeeds iff parameter and return descriptors are structurally equal (filtermaps: Verdict of the payload types, () for an unused side); unknown, listed-but-not-user and generated-helper names must be refused. Non-trivial: the script has at least one exact match or one-step near miss with a catalogue type; distinct by script text".into()
+        "scripts with 3-7 functions/filtermaps whose signatures are catalogue entries, one-step near misses of them (width/signedness/registered type changed, Option<->List, Result<->Verdict, arguments swapped, parameter added/removed/permuted) or random types (20 leaves, nesting <= 3, arity 0..7); every function is requested under every Rust function type of a macro-built catalogue (~260 types); oracle: get_function succeeds iff parameter and return descriptors are structurally equal (filtermaps: Verdict of the payload types, () for an unused side, f64 / i32 for payloads fixed only by an unsuffixed literal; a script-declared record or enum named List, Result or Verdict matches no Rust type); unknown, listed-but-not-user and generated-helper names must be refused. Non-trivial: the script has at least one exact match or one-step near miss with a catalogue type; distinct by script text".into()
     }
     fn assumptions(&self) -> Vec<String> {
         vec![
